@@ -352,7 +352,7 @@ pub fn c06(seed: u64, tier: Tier) -> Vec<Episode> {
         st = history(&mut g, &cfg);
         st.push(Step::Stats { h: 0 });
     }
-    let checks = Checks { growth_rule: true, post_update: true, decode_on_close: true, ..Default::default() };
+    let checks = Checks { growth_rule: true, post_update: true, decode_on_close: true, accounting: true, ..Default::default() };
     vec![base_episode("C06", name, seed, maps, st, checks)]
 }
 
